@@ -17,11 +17,14 @@ package econst
 //	<id>-complete  every literal arithmetic constant in scope has a definition in the table
 //	<id>-bias      the bias vector of field Sub / Neg is a positive multiple of p
 //	<id>-asm       arithmetic data embedded in the assembly equals its definition
+//	<id>-control   positive control run on every pass: a perturbed copy of each literal must be rejected
+//	<id>-mutants   thorough tier: seeded edits applied through packages.Config.Overlay
 
 import (
 	"fmt"
 	"go/token"
 	"math/big"
+	"os"
 	"sort"
 	"strings"
 	"sync"
@@ -49,6 +52,8 @@ var ruleDesc = map[string]string{
 	"complete": "every literal arithmetic constant in scope has an entry in the definition table",
 	"bias":     "the bias limb vector of field Sub/Neg is a positive multiple of p",
 	"asm":      "arithmetic data embedded in the assembly text equals its definition",
+	"control":  "positive control: the literal with one integer perturbed in memory is rejected by its own check",
+	"mutants":  "seeded source edit (in-memory overlay): a value-changing edit is reported naming the constant, a behaviour-preserving edit stays silent",
 }
 
 type runSink struct {
@@ -59,13 +64,28 @@ type runSink struct {
 func (s *runSink) rule(suffix string) *report.Rule {
 	return s.run.Rule(s.prefix+"-"+suffix, ruleDesc[suffix], 0)
 }
-func (s *runSink) ok(rule, construct string)         { s.rule(rule).OK(construct) }
-func (s *runSink) okn(rule, construct string, n int) { s.rule(rule).OKN(construct, n) }
+func (s *runSink) ok(rule, construct string) {
+	trace("ok   %s-%s %s", s.prefix, rule, construct)
+	s.rule(rule).OK(construct)
+}
+func (s *runSink) okn(rule, construct string, n int) {
+	trace("ok*%d %s-%s %s", n, s.prefix, rule, construct)
+	s.rule(rule).OKN(construct, n)
+}
 func (s *runSink) fail(rule, pos, construct, msg string) {
 	s.rule(rule).Fail(pos, construct, msg, nil)
 }
 func (s *runSink) sample(v any)                  { s.run.Sample(v) }
 func (s *runSink) fatal(format string, a ...any) { s.run.Fatal(format, a...) }
+
+// trace prints every obligation when VOI_ECONST_TRACE is set (debugging aid).
+func trace(format string, a ...any) {
+	if traceOn {
+		fmt.Fprintf(os.Stderr, "econst: "+format+"\n", a...)
+	}
+}
+
+var traceOn = os.Getenv("VOI_ECONST_TRACE") != ""
 
 // memSink collects obligations in memory (mutant driver, Value).
 type memSink struct {
@@ -92,9 +112,10 @@ type crossState struct {
 }
 
 type crossVal struct {
-	val string // canonical rendering of the denoted value
-	cfg string
-	pos string
+	val  string // canonical rendering of the denoted (radix-independent) value
+	show string // the value as written, for messages
+	cfg  string
+	pos  string
 }
 
 var (
@@ -149,7 +170,7 @@ func (c *checker) cfgClass() string {
 
 // recordCross stores the value of name in this configuration's radix class and
 // compares it with every other class seen so far in the same run.
-func (c *checker) recordCross(name, class, val string, pos token.Pos) {
+func (c *checker) recordCross(name, class, val, show string, pos token.Pos) {
 	if c.cross == nil {
 		return
 	}
@@ -176,10 +197,10 @@ func (c *checker) recordCross(name, class, val string, pos token.Pos) {
 		} else {
 			c.out.fail("xradix", c.pos(pos), construct, fmt.Sprintf(
 				"the %s encoding (configuration %s) and the %s encoding (%s, configuration %s) denote different values: %s vs %s",
-				class, c.p.Cfg.ID, k, o.pos, o.cfg, abbreviate(val), abbreviate(o.val)))
+				class, c.p.Cfg.ID, k, o.pos, o.cfg, abbreviate(show), abbreviate(o.show)))
 		}
 	}
-	m[class] = crossVal{val: val, cfg: c.p.Cfg.ID, pos: c.pos(pos)}
+	m[class] = crossVal{val: val, show: show, cfg: c.p.Cfg.ID, pos: c.pos(pos)}
 }
 
 func abbreviate(s string) string {
